@@ -1,10 +1,10 @@
 SPECIFICATION Spec
 CONSTANTS
   NaN = NaN
-  Alphabet <- AlphaSim
-  MaxLen = 12
+  Alphabet <- AlphaMod2
+  MaxLen = 2
   AppPatterns <- AppsRT
   Data0 <- D2
-  MinLen = 4
+  MinLen = 1
 INVARIANTS TypeOK CountInv UnderflowInv RefInv FreshStackInv Emit
 CHECK_DEADLOCK FALSE
